@@ -195,7 +195,21 @@ func (e *iterEnv) account() string {
 	if e.f.rowsOpened == 0 {
 		return "norows"
 	}
-	return fmt.Sprintf("closes=%d,closed=%d", closes, e.f.rowsClosed)
+	return fmt.Sprintf("closes=%d,closed=%d,inuse=%d", closes, e.f.rowsClosed, e.inUse())
+}
+
+// inUse: connections of the pool that are in use, once the number has settled (database/sql returns
+// the connection just after the driver's Rows.Close has returned).  Called with e.f.mu held.
+func (e *iterEnv) inUse() int {
+	closed := e.f.rowsClosed
+	e.f.mu.Unlock()
+	defer e.f.mu.Lock()
+	n := e.db.PlainDB().Stats().InUse
+	for i := 0; i < 200 && closed > 0 && n > 0; i++ {
+		time.Sleep(200 * time.Microsecond)
+		n = e.db.PlainDB().Stats().InUse
+	}
+	return n
 }
 
 func (e *iterEnv) waitRowsClosed() {
@@ -664,7 +678,7 @@ func iterOracles(req, out string, add func(violation)) {
 	// C13: after Get / GetAll return, or after a Close in an op sequence, an opened result set is closed exactly once
 	endsWithClose := strings.HasPrefix(req, "(iter ") && strings.HasSuffix(req, "close))")
 	if strings.HasPrefix(req, "(get ") || strings.HasPrefix(req, "(getall ") || endsWithClose {
-		if strings.HasPrefix(acct, "closes=") && acct != "closes=1,closed=1" {
+		if strings.HasPrefix(acct, "closes=") && acct != "closes=1,closed=1,inuse=0" {
 			v("C13", "rows-not-closed-exactly-once", acct)
 		}
 	}
